@@ -1,8 +1,9 @@
 (* Extraction of the history-level model (Engine/HistDefs.v) with the concrete command function of
-   Engine/HistRun.v into its own OCaml module; driver: extract/hist_run.ml, tools/histmodel.py. *)
+   Engine/HistRun.v, of the dry-run model (Engine/HistDry.v) and of the failing-command model
+   (Engine/HistFailDefs.v) into one OCaml module; driver: extract/hist_run.ml, tools/histmodel.py. *)
 Require Import ExtrOcamlBasic.
 From NinjaV Require Import Engine.CrashDefs.
-From NinjaV Require Import Base.Bytes Engine.ScanDefs Engine.ScanSpec Engine.HistDefs Engine.HistRun.
+From NinjaV Require Import Base.Bytes Engine.ScanDefs Engine.ScanSpec Engine.HistDefs Engine.HistRun Engine.HistDry Engine.HistFailDefs.
 Extraction Language OCaml.
 Set Extraction KeepSingleton.
-Extraction "histmodel.ml" Z.add N.add Nat.add hcmd init_hstate apply_step run_hist build step_run hist_ok frag_AB topo_ordered no_inputless_phony wf_b clean_of content_of is_clean opt_content_eqb h_trace trace_delta.
+Extraction "histmodel.ml" Z.add N.add Nat.add hcmd init_hstate apply_step run_hist build step_run hist_ok frag_AB topo_ordered no_inputless_phony wf_b clean_of content_of is_clean opt_content_eqb h_trace HistRun.trace_delta dry_build buildF buildF_full taint_safe tainted.
